@@ -50,8 +50,16 @@ func checkC17(c *hx.Ctx) {
 		}
 		r := hx.NewRng(seeds[i], "c17")
 		ids := newIDPool(r)
+		// URIs are set members by their spelling: add spellings that only a normalising comparison would call equal
+		ids.uris = append(ids.uris, strings.Replace(ids.uris[0], "https://", "HTTPS://", 1), ids.uris[1]+"#", strings.Replace(ids.uris[2], ".", "%2E", 1))
 		// reach a document by a random valid prefix
 		doc := ref.Doc{}
+		if i%4 == 3 {
+			// custom members that look like sections of a resolved DID document are custom members, nothing else
+			doc["verificationMethod"] = []interface{}{genKeyEntry(r, "vm1"), genKeyEntry(r, "vm2")}
+			doc["authentication"] = []interface{}{"#vm1"}
+			doc["services"] = []interface{}{genService(r, "plural")}
+		}
 		for k := 0; k < r.Intn(4); k++ {
 			if d, err := ref.ApplyPatches(doc, genPatches(r, 3, ids)); err == nil {
 				doc = d
